@@ -38,12 +38,13 @@ HDIR = os.path.join(core.HARNESS, "parseq")
 # type key -> (flavour, container, extent, driver group, the key whose TLC configuration it shares)
 TYPES = {"ov": ("optional", "vector", 0, 1, "ov"), "oa3": ("optional", "array", 3, 1, "oa3"), "oa70": ("optional", "array", 70, 1, None),
          "cv": ("complex", "vector", 0, 1, "cv"), "ca3": ("complex", "array", 3, 1, "ca3"), "ca66": ("complex", "array", 66, 1, None),
-         "ovd": ("optional", "vector", 0, 2, "ov"), "ovb": ("optional", "vector", 0, 2, "ov"), "oab3": ("optional", "array", 3, 2, "oa3"),
+         "ovd": ("optional", "vector", 0, 2, "ov"), "ovb": ("optional", "vector", 0, 2, "ov"), "ovn": ("optional", "vector", 0, 2, "ov"), "oab3": ("optional", "array", 3, 2, "oa3"),
          "oa0": ("optional", "array", 0, 2, "oa0"), "ca0": ("complex", "array", 0, 2, "ca0"),
          "cvi": ("complex", "vector", 0, 2, "cv"), "cai3": ("complex", "array", 3, 2, "ca3")}
 WHAT = {"ov": "xoptional_vector<int>", "oa3": "xoptional_array<int,3>", "oa70": "xoptional_array<int,70>", "cv": "xcomplex_vector<double>",
         "ca3": "xcomplex_array<double,3>", "ca66": "xcomplex_array<double,66>", "ovd": "xoptional_vector<double>",
         "ovb": "xoptional_vector<int, std::allocator<int>, std::vector<bool>>", "oab3": "xoptional_array<int,3,std::array<bool,3>>",
+        "ovn": "xoptional_vector<int, std::allocator<int>, xdynamic_bitset<uint8_t>> (narrow flag blocks)",
         "oa0": "xoptional_array<int,0>", "ca0": "xcomplex_array<double,0>", "cvi": "xcomplex_vector<double,true>", "cai3": "xcomplex_array<double,3,true>"}
 PRIMARY = {(v[0], v[1], v[2]): k for k, v in TYPES.items() if v[4] == k}          # TLC configuration -> the type it is replayed on first
 ALIASES = {}                                                                    # primary key -> other types of the same configuration
